@@ -97,3 +97,32 @@ def in_known_cell(case):
             and case.get("expected") and _absent_labels(case):
         return True
     return False
+
+
+@pred("KF02-nanarg-allnan-block-sentinel-tie")
+def _kf02(case, impl_res, bad):
+    if case.get("func") not in ("nanargmax", "nanargmin") or not case.get("chunks"):
+        return False
+    sent = float("-inf") if case["func"] == "nanargmax" else float("inf")
+    vals = _vals(case)
+    labs = [I.unf(x) for x in case["labels"]]
+    sizes = case["chunks"][-1]
+    groups_hit = set()
+    for g in {l for l in labs if not (isinstance(l, float) and math.isnan(l))}:
+        mem = [v for v, l in zip(vals, labs) if l == g and not math.isnan(v)]
+        if not mem or (max(mem) if sent < 0 else min(mem)) != sent:
+            continue
+        off = 0
+        for s in sizes:
+            blk = [(v, l) for v, l in zip(vals[off:off + s], labs[off:off + s]) if l == g]
+            if blk and all(math.isnan(v) for v, _ in blk):
+                groups_hit.add(g)
+            off += s
+    if not groups_hit:
+        return False
+    exp = sorted(case["expected"]) if case.get("expected") else sorted({l for l in labs if not (isinstance(l, float) and math.isnan(l))})
+    for g, _, _ in bad:
+        gg = exp[g] if isinstance(g, int) and not isinstance(g, bool) and g < len(exp) and g not in exp else g
+        if g not in groups_hit and gg not in groups_hit:
+            return False
+    return True
